@@ -310,3 +310,48 @@ CHECKS["C12"] = NS(
     ],
     PLAN={"quick": [("ema", 16, {"n": 120})], "thorough": [("ema", 16, {"n": 5000})]},
 )
+
+CHECKS["C13"] = NS(
+    MODULE="c13_scope",
+    LEVEL="fault_enumeration",
+    LEVEL_TEXT=(
+        "Fault enumeration x stateful exploration over GLOBAL state. faults: every combination of exception kind (RuntimeError, "
+        "ValueError, KeyboardInterrupt, GeneratorExit, SystemExit, a custom BaseException) x fault position (inside the forward at every "
+        "module position of chains of 1..3 quantized layers, or in the with body) x nesting depth 1-2 x streamlining x bystander model is "
+        "run and followed by an unrelated forward and a freshly built module. machine: a Hypothesis RuleBasedStateMachine (rules enter / "
+        "exit / exit-by-exception / forward / library call / new module, invariants after every step) explores interleavings. The oracle is "
+        "a snapshot of torch's global module-hook tables, the torch-function mode stack and quanto's extension flag, plus bitwise "
+        "state_dict / flag snapshots around forwards and version counters of tensors handed to library calls."
+    ),
+    LEVEL_NOTE="the snapshot covers every _global_* hook dict that exists in this torch, the function-mode stack and library.ops._ext_enabled; leaked state is force-restored after being reported so one leak cannot poison later cases",
+    TECHNIQUE=PBT + "Hypothesis RuleBasedStateMachine over global state + complete enumeration of injected-exception points; global-state snapshot invariant",
+    RULE=(
+        "faults: explicit histories [enter x depth, exit through an injected exception at an enumerated point, remaining exits, forward of a "
+        "bystander, new module]. machine: up to 12 rule applications per example. Non-trivial: a history with an exceptional exit followed by "
+        "a forward of another model or a new module. Distinct by the sequence of (op, exception kind, position, model, function)."
+    ),
+    ASSUMPTIONS=["an exception is caught right outside the innermost with block (the other contexts of a nest are then left normally)", "single-threaded: no schedule dimension"],
+    PLAN={"quick": [("faults", 8, {"maxn": 3}), ("machine", 8, {"n": 150, "steps": 12})], "thorough": [("faults", 8, {"maxn": 5}), ("machine", 8, {"n": 3000, "steps": 20})]},
+)
+
+CHECKS["C09"] = NS(
+    MODULE="c09_freeze",
+    LEVEL="exploration",
+    LEVEL_TEXT=(
+        "Model-based testing of lifecycle histories: Hypothesis draws a runnable model (MLPs with/without LayerNorm, conv nets over the "
+        "Conv2d hyper-parameter space, single Linear with in_features chosen so that every automatic group size occurs), a configuration "
+        "(6 weight qtypes x 4 activation settings x 3 dtypes) and 2-7 steps from {forward, calibrate (with and without no_grad, "
+        "streamlining on/off), freeze, freeze again, deepcopy, to(cpu) copy, state_dict reload, channels_last, continue on the copy}. "
+        "Oracles: outputs on a stored probe batch are bit-identical across freeze and across every copy, a second freeze changes no "
+        "tensor and no attribute, freeze touches nothing but the quantized weights, frozen weights satisfy the structural invariant with "
+        "the packed payload size and scale / zero-point counts computed from shapes. Exploration."
+    ),
+    LEVEL_NOTE="bitwise comparison of outputs (same kernels on the same data before and after); CPU only, device moves are cpu->cpu copies",
+    TECHNIQUE=PBT + "stateful generation of lifecycle histories; bitwise before/after oracle, idempotence, storage-size formula",
+    RULE=(
+        "Hypothesis histories as above. Non-trivial: a freeze that is followed by at least one of {freeze again, deepcopy, reload, to copy}. "
+        "Distinct by (model recipe, configuration, step sequence)."
+    ),
+    ASSUMPTIONS=["real device moves are impossible (CPU only)", "histories whose float model is not finite on the probe batch are discarded"],
+    PLAN={"quick": [("lifecycle", 16, {"n": 100})], "thorough": [("lifecycle", 16, {"n": 4000})]},
+)
